@@ -367,7 +367,9 @@ Accept(ev) ==
     [] op = "casts" -> CastsOk(ev)
     [] op = "exists_keys" -> SafeEq(RBool(IF a.all = 1 THEN ExistsAllKeys(D(ev, 1), a.keys) ELSE ExistsAnyKeys(D(ev, 1), a.keys)), ev.res)
     [] op = "traverse" -> SafeEq(RBool(TraverseCheckString(D(ev, 1), a.pred)), ev.res)
-    [] op = "comparable2" -> ev.res.t = "keys" /\ LexCmp(ev.res.k0, ev.res.k1) = Cmp(D(ev, 1), D(ev, 2))
+    \* the key order must be the order of the documents - the specification's, and the one compare itself reports
+    [] op = "comparable2" -> /\ ev.res.t = "keys" /\ LexCmp(ev.res.k0, ev.res.k1) = Cmp(D(ev, 1), D(ev, 2))
+                             /\ SafeEq(ROrd(LexCmp(ev.res.k0, ev.res.k1)), ev.res.cmp)
     [] op = "comparable_all" -> ev.res.t = "keyset" /\ \A i \in 1..Len(ev.res.k) : Tup(ev.res.k[i]) = Tup(ev.res.k[1])
     [] op = "concat" -> SafeEq(RBytes(Encode(Concat(D(ev, 1), D(ev, 2)))), ev.res) /\ BufferOk(ev)
     [] op = "delete_by_name" -> SafeEq(REdit(DeleteByName(D(ev, 1), a.n)), ev.res) /\ BufferOk(ev)
